@@ -59,6 +59,10 @@ def gen_case(rng):
         if rng.random() < 0.1:
             e = round(e, 2)
         eq.append(e)
+    if rng.random() < 0.1:
+        # whole currency units / index points: the column is of integer type
+        eq = [int(round(v)) for v in eq]
+        mode += '+integers'
     bench = None
     if rng.random() < 0.5:
         b = rng.choice([1e6, 5e5, 250.0])
@@ -66,6 +70,8 @@ def gen_case(rng):
         for i in range(1, n):
             b = b * math.exp(rng.gauss(0.0002, 0.009))
             bench.append(b)
+        if rng.random() < 0.1:
+            bench = [int(round(v)) for v in bench]
     return dict(start_day=d0, equity=eq, periods=rng.choice([252, 252, 252, 12, 52]), scale=rng.choice([2.0, 0.5, 1000.0, 3.7]), mode=mode,
                 benchmark=bench)
 
